@@ -38,14 +38,13 @@ from ..astx import (
     enclosing_stmt,
     expand,
     facts_at,
-    has_fact,
     is_suspension,
     kwarg,
     last,
     reaching_def,
 )
 from ..cfg import CFG
-from ..index import AnchorError, FuncNode, ancestors, enclosing_class, enclosing_function, parent, qualname_of, walk_shallow
+from ..index import AnchorError, FuncNode, ancestors, enclosing_function, parent, qualname_of, walk_shallow
 from ..selftest import Twin
 
 EXPLANATION = (
